@@ -84,6 +84,19 @@ def run_property(pid: str, tier: str, only=None, root=None, selftest=True) -> Re
     rep.normalisation = ctx.normalisation
     rep.only = only
     mod.run(ctx, rep)
+    if only in (None, "SIG"):
+        # shared rule SIG: the default of a parameter is part of what a call without that argument means; a changed default of a
+        # function this property is anchored in changes the behaviour of every caller that relies on it
+        from .astutil import changed_defaults
+        n_sig = 0
+        for (f_, pname, old, new, owner) in changed_defaults(ctx.prog):
+            if owner != pid:
+                continue
+            n_sig += 1
+            rep.add("SIG", f_.qname, f"{pname}={new}", f"the default of parameter `{pname}` was `{old}` and is now `{new}`: every call that leaves it out "
+                    f"now behaves differently", f_.loc())
+        if "SIG" not in rep.rules_run:
+            rep.rules_run.append("SIG")
     if not rep.findings:
         rep.check_floors()  # anti-vacuity; a run that already reports findings is not a vacuous pass
     rep.extra["call_resolution"] = dict(ctx.world.call_stats)
